@@ -98,7 +98,9 @@ Step == nops < MaxOps /\ nops' = nops + 1
 \* anything over from an operation with another piece length; the model itself has no such state)
 \* route: library classes, the command line with explicit flags, or the command line reading a
 \* configuration file (the parser and its defaults are process-lifetime objects too)
-Create(t, v, pl, route) == /\ Step /\ TargetExists(t) /\ FreshListing(t) # {}
+\* al: piece alignment requested (padding entries; only the v1 creator honours it) - the padding buffers of
+\* the hasher are one more thing that must not survive from one create to the next
+Create(t, v, pl, route, al) == /\ Step /\ TargetExists(t) /\ FreshListing(t) # {}
                 /\ last' = [op |-> "create", got |-> ToolCreate(t), want |-> FreshCreate(t)]
                 /\ memo' = Store(memo, t)
                 /\ metas' = metas \cup {t}
@@ -106,7 +108,7 @@ Create(t, v, pl, route) == /\ Step /\ TargetExists(t) /\ FreshListing(t) # {}
                           THEN [f \in Files |-> IF f \in FreshListing(t) /\ ~CacheHit(f)
                                                 THEN [has |-> TRUE, size |-> fs[f], stamp |-> stamp[f], gen |-> gen[f]] ELSE hc[f]]
                           ELSE hc)
-                /\ Log([op |-> "create", target |-> t, version |-> v, plen |-> pl, route |-> route])
+                /\ Log([op |-> "create", target |-> t, version |-> v, plen |-> pl, route |-> route, align |-> al])
                 /\ UNCHANGED <<fs, gen, stamp, idx>>
 Mutate(kind, f) ==
     /\ Step
@@ -145,7 +147,8 @@ Init == /\ fs \in [Files -> {Absent, 1}] /\ gen = [f \in Files |-> 0] /\ stamp =
         /\ memo = [k \in {"r", "r/d", "r/a", "r/d/b", "r/d/c"} |-> NoEntry]
         /\ metas = {} /\ last = [op |-> "none", got |-> 0, want |-> 0] /\ nops = 0
         /\ hist = <<[op |-> "init", fs |-> fs]>>
-Next == \/ \E t \in Targets, v \in 1 .. 3, pl \in 1 .. 2, rt \in {"lib", "cli", "clitracker", "cliconfig"} : Create(t, v, pl, rt)
+Next == \/ \E t \in Targets, v \in 1 .. 3, pl \in 1 .. 2, rt \in {"lib", "cli", "clitracker", "cliconfig"}, al \in BOOLEAN :
+              Create(t, v, pl, rt, al /\ v = 1)
         \/ \E k \in {"add", "delete", "grow", "shrink", "rewrite", "rewritekeep"}, f \in Files : Mutate(k, f)
         \/ \E k \in {"recheck", "magnet", "edit"}, t \in Targets : Use(k, t)
         \/ \E t \in Targets, se \in {"own", "empty", "part"} : Rebuild(t, se)
